@@ -632,7 +632,24 @@ fn main() {
             continue;
         }
         if toks[0] == "threads" {
-            writeln!(out, "{}", run_threads(&toks[1..])).unwrap();
+            // every schedule runs in a fresh process: process-wide state that a schedule leaves behind
+            // (a `static`, an atomic counter …) must not mask or fake the behaviour of the next one
+            if std::env::args().any(|a| a == "--child") {
+                writeln!(out, "{}", run_threads(&toks[1..])).unwrap();
+            } else {
+                use std::process::{Command, Stdio};
+                let mut ch = Command::new(std::env::current_exe().unwrap())
+                    .arg("--child")
+                    .stdin(Stdio::piped())
+                    .stdout(Stdio::piped())
+                    .spawn()
+                    .expect("spawn child");
+                ch.stdin.take().unwrap().write_all(format!("{}\n", line).as_bytes()).unwrap();
+                let o = ch.wait_with_output().unwrap();
+                let txt = String::from_utf8_lossy(&o.stdout);
+                let first = txt.lines().next().unwrap_or("panic other");
+                writeln!(out, "{}", first).unwrap();
+            }
             continue;
         }
         let mode = match mode_of(toks[0]) {
